@@ -37,3 +37,6 @@ CHECKS["C16"] = check_figure.run
 
 import check_validate
 CHECKS["C19"] = check_validate.run
+
+import check_width
+CHECKS["C20"] = check_width.run
